@@ -9,8 +9,9 @@ I(n) == [t |-> "int", v |-> n]
 Sy(cs) == [t |-> "sym", cs |-> cs]
 Atoms == {[t |-> "bool", b |-> TRUE], [t |-> "bool", b |-> FALSE], I(0), I(-7), I(2147483647), I(-2147483647 - 1),
           [t |-> "rat", n |-> 1, d |-> 2], [t |-> "rat", n |-> -3, d |-> 4], [t |-> "char", c |-> 97], [t |-> "char", c |-> 40],
-          Sy(<<97>>), Sy(<<43>>), Sy(<<45, 62, 120>>), [t |-> "nil"], [t |-> "vec", xs |-> <<>>]}
-FewAtoms == {[t |-> "bool", b |-> FALSE], I(-7), [t |-> "rat", n |-> 1, d |-> 2], Sy(<<97>>), [t |-> "nil"]}
+          Sy(<<97>>), Sy(<<43>>), Sy(<<45, 62, 120>>), QuoteSym, [t |-> "nil"], [t |-> "vec", xs |-> <<>>]}
+\* the symbol quote is an element like any other: (quote), (quote a b), (quote . a), (a quote b) are lists, not abbreviations
+FewAtoms == {[t |-> "bool", b |-> FALSE], I(-7), [t |-> "rat", n |-> 1, d |-> 2], QuoteSym, [t |-> "nil"]}
 Seqs(S, n) == UNION {[1..k -> S] : k \in 0..n}
 ListsOver(S, n, tails) == {ListOf(sq, tl) : sq \in Seqs(S, n) \ {<<>>}, tl \in tails} \cup {[t |-> "nil"]}
 VecsOver(S, n) == {[t |-> "vec", xs |-> sq] : sq \in Seqs(S, n)}
